@@ -110,9 +110,17 @@ func (conn *obfs4Conn) makePacket(w io.Writer, pktType uint8, data []byte, padLe
 }
 
 func (conn *obfs4Conn) readPackets() error {
-	// Attempt to read off the network.
-	rdLen, rdErr := conn.Conn.Read(conn.readBuffer)
-	conn.receiveBuffer.Write(conn.readBuffer[:rdLen])
+	// Attempt to read off the network, unless data that arrived along with
+	// the handshake is still waiting to be processed: blocking here would
+	// withhold it until the peer happens to send something else.
+	var rdErr error
+	if conn.receivePending {
+		conn.receivePending = false
+	} else {
+		var rdLen int
+		rdLen, rdErr = conn.Conn.Read(conn.readBuffer)
+		conn.receiveBuffer.Write(conn.readBuffer[:rdLen])
+	}
 
 	var (
 		decoded [framing.MaximumFramePayloadLength]byte
